@@ -125,7 +125,7 @@ func checkCreationWiring(c *Ctx, rule string) {
 	for _, f := range p.Funcs {
 		for _, ci := range Calls(f) {
 			sc := ci.Common().StaticCallee()
-			if sc == nil || sc.Name() != "calcLeavePlayers" {
+			if sc == nil || fnName(sc) != "calcLeavePlayers" {
 				continue
 			}
 			args := ci.Common().Args
@@ -170,7 +170,7 @@ func checkManagerCallbackWiring(c *Ctx, rule string) {
 	p := c.P
 	var create *ssa.Function
 	for _, f := range p.Funcs {
-		if f.Name() == "CreateTable" && f.Signature.Recv() != nil && namedOf(f.Signature.Recv().Type()) != nil && namedOf(f.Signature.Recv().Type()).Obj().Name() == "manager" {
+		if fnName(f) == "CreateTable" && f.Signature.Recv() != nil && namedOf(f.Signature.Recv().Type()) != nil && canonTypeName(namedOf(f.Signature.Recv().Type()).Obj()) == "manager" {
 			create = f
 		}
 	}
@@ -222,7 +222,7 @@ func checkManagerCallbackWiring(c *Ctx, rule string) {
 	c.Min(rule, "callback registrations in manager.CreateTable", n, 8)
 	// options: the caller's when given
 	for _, ci := range Calls(create) {
-		if sc := ci.Common().StaticCallee(); sc != nil && sc.Name() == "NewTableEngine" {
+		if sc := ci.Common().StaticCallee(); sc != nil && fnName(sc) == "NewTableEngine" {
 			a := p.Sym(ci.Common().Args[0]).Strip()
 			ok := false
 			if a.Kind == "phi" {
@@ -243,7 +243,7 @@ func checkEngineCallbackDefaults(c *Ctx, rule string) {
 	p := c.P
 	n := 0
 	for _, f := range p.Funcs {
-		if f.Name() != "NewTableEngine" || f.Parent() != nil {
+		if fnName(f) != "NewTableEngine" || f.Parent() != nil {
 			continue
 		}
 		for _, ss := range p.Stores([]*ssa.Function{f}) {
